@@ -47,6 +47,13 @@ def gen(ctx):
 def _canon(op, ans):
     if ans.startswith('PANIC'):
         return 'PANIC'
+    if op.startswith('obj ') and ans in ('kept-same', 'kept-changed', 'kept'):
+        # a dirty object is rewritten (model: `update`); whether the rewritten leaf differs from the old
+        # one is content, not decided by the object-level model.  A clean object (model: `none`) must be
+        # `kept-same`: the model never answers `kept` for it, so canonicalising only dirty ones is sound.
+        fl = op.split()
+        if len(fl) >= 3 and fl[2] == '1':
+            return 'kept'
     return ans
 
 
